@@ -344,6 +344,9 @@ def c08(ctx):
     substring(ctx, ["iter", "riter"], "iter,riter", {"result", "panic"}, (5, 7) if ctx.quick else (5, 9))
     lib_traces(ctx, "sub", "fwd,rev", "api", 800 if ctx.quick else 8000, "sub")
     extra = tlaps_supplement(ctx, "FindIterUnbounded", ("StepPos", "InitInv", "NextInv", "Safety"))
+    e2 = tlaps_supplement(ctx, "FindRevIterUnbounded", ("InitInv", "NextInv", "Safety"))
+    if "tlaps" in e2:
+        extra["tlaps_rev"] = e2["tlaps"]
     return C.finish(ctx, "model_checking", RULE_SUB, extra_cov=extra)
 
 
